@@ -3,13 +3,14 @@ import random, copy
 from vlib import core, kexec, pool, net, refksi as R, refserver as S, gen
 
 LEVEL = 'exploration'
+SAME_LEN = {1: [8, 0x0b], 8: [1, 0x0b], 0x0b: [1, 8], 0: [2], 2: [0], 4: [9], 9: [4], 5: [0x0a], 0x0a: [5], 3: [7], 7: [3]}     # algorithm ids with equal digest length
 
 HONEST = ('honest', 'honest-chunked')
 DEVIATIONS = ('wrong-id', 'id-plus-2^32', 'other-pub-time', 'other-aggr-time', 'wrong-shape-drop-link', 'wrong-shape-add-link', 'wrong-shape-flip-direction',
               'other-input-hash', 'altered-right-link', 'status-nonzero', 'status-nonzero-with-chain', 'error-pdu', 'bad-mac', 'other-key-valid-mac', 'other-pdu-version',
               'no-chain', 'truncated', 'garbled', 'transport-error', 'http-500', 'consistent-chain-for-other-second',
               # the same deviations in a reply that carries no status element at all
-              'no-header-valid-mac', 'no-mac', 'no-status+wrong-id', 'no-status+other-pub-time', 'no-status+other-aggr-time', 'no-status+wrong-shape-add-link', 'no-status+other-input-hash')
+              'no-header-valid-mac', 'no-mac', 'input-hash-other-algorithm', 'right-link-other-algorithm', 'no-status+wrong-id', 'no-status+other-pub-time', 'no-status+other-aggr-time', 'no-status+wrong-shape-add-link', 'no-status+other-input-hash')
 NOT_JUDGED = ('no-status+honest',)     # a complete, correct reply without a status element: the property does not say (the library reads it as status 0)
 
 
@@ -85,6 +86,16 @@ class Extender:
             else:
                 i = rng.choice(rights)
                 chain.links[i] = (False, gen._flip_digest(chain.links[i][1], rng))
+        elif b == 'input-hash-other-algorithm':
+            # the same digest octets under the identifier of another algorithm with the same digest length
+            chain.input_hash = bytes([rng.choice(SAME_LEN[chain.input_hash[0]])]) + chain.input_hash[1:]
+        elif b == 'right-link-other-algorithm':
+            rights = [i for i, (l, sb) in enumerate(chain.links) if not l]
+            if not rights or self.src_cal is None:
+                self.behaviour = b = 'honest'
+            else:
+                i = rng.choice(rights)
+                chain.links[i] = (False, bytes([rng.choice(SAME_LEN[chain.links[i][1][0]])]) + chain.links[i][1][1:])
         kw = {}
         rid = req['req_id']
         status = 0
